@@ -25,7 +25,7 @@ func init() {
 	core.Register(&core.Check{
 		ID:    "C07",
 		Level: "fault_enumeration",
-		Rule: "a raise (explicit ValueErr through a nested call, a natural ZeroDivisionErr, and a natural StopIterErr outside iterator bodies) is injected at every evaluation slot of every construct (array/object/map literal incl. unpacking, range bounds, call callee/arguments/keyword/unpack/trailing function, receiver, chain argument, " +
+		Rule: "a raise (explicit ValueErr through a nested call, a natural ZeroDivisionErr, a natural StopIterErr outside iterator bodies, the NameErr of an undefined name and the NoPropErr of an absent property) is injected at every evaluation slot of every construct (array/object/map literal incl. unpacking, range bounds, call callee/arguments/keyword/unpack/trailing function, receiver, chain argument, " +
 			"infix/prefix operands, if/else parts, guarded jumps, assignment, embedded string pieces, index expressions, keyword defaults, parameter expressions, _incBy/<=> hooks of an iterated range, the first step of an iterator consumed by each of 33 native Iterable methods, element k of n in the 9 non-thoughtful chain context x 3 call forms), " +
 			"single level and nested two levels, in 6 contexts (top-level program, function body with pending defer, try step, thoughtful scalar chain, list-chain element, deferred expression); " +
 			"every error prototype of the root scope raised explicitly (kind and message reach try/catch through a nested call and a defer); callbacks: every property reachable from 10 kinds of receivers (Either values excluded: a call on them is an Either step, C13's subject) (names discovered at run time) is handed a raising callback in 5 call forms, plus the predicate forms ===, !==, case, asFor?: whenever the callback ran, its error comes out; " +
@@ -45,6 +45,8 @@ const prelude = `t := {|k, v| ("t" + k.S).p; v}
 bm := {|k| "m".p; raise ValueErr.new("boom" + k.S)}
 nb := {|k| "m".p; 1 / 0}
 si := {|k| "m".p; []._iter.next}
+un := {|k| "m".p; zz_c07_undefined}
+np := {|k| "m".p; nil.zz_c07_nope}
 ff := {|a, b, k: 0, j: 0| [a, b, k, j]}
 id := {|x| x}
 cf := {|a, f| f(a)}
@@ -295,6 +297,12 @@ func wantErr(t tcase) (string, string) {
 	if t.Fault == "si" {
 		return "StopIterErr", "iter stopped"
 	}
+	if t.Fault == "un" {
+		return "NameErr", "name `zz_c07_undefined` is not defined"
+	}
+	if t.Fault == "np" {
+		return "NoPropErr", "property `zz_c07_nope` is not defined."
+	}
 	return "ValueErr", fmt.Sprintf("boom%d", t.faultNo())
 }
 
@@ -468,6 +476,11 @@ func gen(thorough bool, emit func(tcase)) {
 				// it is an error like any other wherever the step is not the body of an iterator
 				if !inIterBody(oc) {
 					emit(tcase{Outer: oi, OuterName: oc.Name, Slot: s, Inner: -1, Ctx: ctx, Fault: "si"})
+				}
+				// the errors of an undefined name and of an absent property (the kinds some constructs treat as "nothing there")
+				if ctx == "prog" || ctx == "try" || thorough {
+					emit(tcase{Outer: oi, OuterName: oc.Name, Slot: s, Inner: -1, Ctx: ctx, Fault: "un"})
+					emit(tcase{Outer: oi, OuterName: oc.Name, Slot: s, Inner: -1, Ctx: ctx, Fault: "np"})
 				}
 			}
 		}
